@@ -267,7 +267,7 @@ theorem getType_wf (k : Nat) : ∀ v : Val, v.wf = true → (getType k v).wf = t
           simp only [Bool.and_eq_true] at hcond
           simp only [Ty.wf, Bool.and_eq_true, decide_eq_true_eq, wfTF, List.map_nil, List.nodup_nil, and_true]
           refine ⟨(wfTF_iff _).mpr (getFields_wf k _ h.1), ?_⟩
-          rw [getFields_keys k _ hcond.1]; exact h.2
+          rw [getFields_keys k _ (all_tdKeyOk_strKey _ hcond.1)]; exact h.2
         · simp only [Ty.wf, Bool.and_eq_true]
           exact ⟨shrink_wf k _ (getKeyTypes_wf k _ h.1), shrink_wf k _ (getValTypes_wf k _ h.1)⟩
 theorem getTypes_wf (k : Nat) : ∀ vs : List Val, wfL vs = true → ∀ t ∈ getTypes k vs, t.wf = true
@@ -344,16 +344,17 @@ theorem getType_sound (k : Nat) : ∀ v : Val, v.wf = true → conforms sub ao (
           simp only [Bool.and_eq_true] at hcond
           simp only [conforms, Bool.and_eq_true, List.all_eq_true]
           have hv := getVal_sound k _ h.1
-          refine ⟨conformsReq_getFields sub ao k _ hv _ (fun x hx => hx) hcond.1, ?_⟩
+          have hstr := all_tdKeyOk_strKey _ hcond.1
+          refine ⟨conformsReq_getFields sub ao k _ hv _ (fun x hx => hx) hstr, ?_⟩
           intro kv hkv
-          have hk := List.all_eq_true.mp hcond.1 kv hkv
+          have hk := List.all_eq_true.mp hstr kv hkv
           obtain ⟨a, b⟩ := kv
           cases a <;> simp [Val.strKey?] at hk
           rename_i s
           simp only [Bool.or_eq_true]
           left
           rw [conformsField_lookup]
-          exact ⟨_, getFields_lookup k _ h.2 hcond.1 s b hkv, hv _ hkv⟩
+          exact ⟨_, getFields_lookup k _ h.2 hstr s b hkv, hv _ hkv⟩
         · simp only [conforms, List.all_eq_true, Bool.and_eq_true]
           intro x hx
           have := getKV_sound k _ h.1 x hx
